@@ -623,6 +623,9 @@ def known_finding_witnesses(sc):
     yield Job("witness:derived-names", sc.path("kf-derived"), model_text=DERIVED_NAMES_MODEL, manifest_extra=OPTION_SETS[2][1], compile_cpp=True, ndjson=True, namespace="Kf5")
     yield Job("cross:use-before-declaration", sc.path("use-before-decl"), model_text=USE_BEFORE_DECLARATION_MODEL, manifest_extra=OPTION_SETS[2][1], compile_cpp=True, ndjson=True,
               namespace="OrderNs", exercise=True)
+    yield Job("witness:open-generic-union-with-generic-case", sc.path("kf-gunion"), model_text=("Pair<T>: !record\n  fields:\n    a: T\n    b: T\nG<T>: !record\n  fields:\n    u: !union {p: Pair<T>, s: string}\n"
+                                                                                               "P: !protocol\n  sequence:\n    g: G<int>\n"),
+              manifest_extra=OPTION_SETS[2][1], compile_cpp=True, ndjson=True, namespace="Kf6")
     yield Job("witness:type-parameter-only-in-array", sc.path("kf-array"), pkg=pkg, manifest_extra=OPTION_SETS[4][1], namespace="Kf3")
 
 
@@ -765,7 +768,7 @@ def judge(report, j, res, seed):
     if py is not None:
         report.count("python.checked")
         if py["rc"] != 0:
-            report.violation(f"python:{_sig(py['out'])}" + (":" + j.kind if j.kind.startswith(("names:namespace", "init:", "witness:derived-names", "cross:")) else ""), dict(replay, output=py["out"]), "the generated Python package does not compile / import")
+            report.violation(f"python:{_sig(py['out'])}" + (":" + j.kind if j.kind.startswith(("names:namespace", "init:", "witness:derived-names", "witness:open-generic-union", "cross:")) else ""), dict(replay, output=py["out"]), "the generated Python package does not compile / import")
     cpp = res.get("cpp")
     if cpp is not None:
         report.count("cpp.compiled")
@@ -774,7 +777,7 @@ def judge(report, j, res, seed):
             # the first error is about a sequence of bool (std::vector<bool> has no data() and hands out proxies, not bool&)
             report.violation("cpp:vector-of-bool", dict(replay, output=cpp["log"]), "the generated C++ does not compile as C++17")
         elif not cpp["ok"]:
-            report.violation(f"cpp:{_sig(cpp['log'])}" + (":" + j.kind if j.kind.startswith(("names:namespace", "init:", "witness:derived-names", "cross:")) else ""), dict(replay, output=cpp["log"]), "the generated C++ does not compile as C++17")
+            report.violation(f"cpp:{_sig(cpp['log'])}" + (":" + j.kind if j.kind.startswith(("names:namespace", "init:", "witness:derived-names", "witness:open-generic-union", "cross:")) else ""), dict(replay, output=cpp["log"]), "the generated C++ does not compile as C++17")
 
 
 def _sig(text):
